@@ -14,6 +14,13 @@ from framework.registry import target, job, PROPS, COMMON_ASSUME
 #    families and the Hermitian G4 family, for the block formulations the property lists; the point-wise scalar
 #    reference formulation is held to truthfulness only (observed to stall at 1e-5 on a 4x4 Kronecker system); the complex-shifted real-equivalent form is held to truthfulness only
 #    (AMG on the 2n x 2n non-symmetric form is not promised to converge);
+#  * rescaled systems (seeded C13-3): every third `solves` case repeats all formulations with the MATRIX multiplied by 2^-30, 2^-60,
+#    2^+30 (rhs kept, so ||f|| stays away from the solvers' absolute zero-rhs threshold; the harness checks against its own
+#    rescaled copy).  A power-of-two factor commutes with every rounding and all components used compare only relative
+#    quantities, so a formulation must solve the rescaled system whenever it solved the unit-scale one, without new exceptions,
+#    and with bitwise the same iteration count and reported residual (observed on the unchanged tree for every static_matrix
+#    formulation; the Eigen-block formulation fails it because of the fuzzy isZero(), reported as a defect).  mixed_block
+#    uses 2^-30 / 2^+30 only (2^-60 squared underflows in float, exactness could not be argued).
 #  * same solution complex vs real-equivalent: ||x_c - x_r||/||x_c|| <= kappa_2 (relres_c + relres_r), n <= 600;
 #  * mixed precision: default solver parameters (tol 1e-8, maxiter 100), solve(A, rhs, x) with the double
 #    matrix as in tutorial/1.poisson3Db; coarse_enough = 100 so that the 500..640-unknown cases have >= 2 levels.
@@ -40,9 +47,9 @@ def c13_jobs(tier):
 
 PROPS['C13'] = dict(
     level='exploration', jobs=c13_jobs,
-    rule='operators: seeded scalar matrices with b x b structure, b = 2,3,4 (Kronecker A x C with SPD C, A x I i.e. structurally incomplete blocks, per-edge SPD block stencils, punched Kronecker products, random incomplete blocks; half integer-valued) presented as crs<static_matrix>, block_matrix adapter, builtin_hybrid matrix, crs<Eigen block>; solves: the G5 families on grid / graph base problems (40..900 cells, thorough ..2500) through 8 formulations per block size; complex_adapter: random complex matrices (half Gaussian-integer valued); complex_solves: Hermitian positive definite (gauge-phase) and complex-shifted G4 systems, n 60..2000 (thorough ..6000), complex value type and real-equivalent form; mixed: float hierarchy for all 4 coarsenings x 9 relaxations under double FGMRES (every case) and BiCGStab / CG (n <= 640) on G1 model problems with 500..4000 unknowns (thorough ..20000). Non-trivial: the matrix stores entries (operators, complex_adapter), at least one hierarchy of the case has >= 2 levels (solves, mixed), every complex solve case.',
+    rule='operators: seeded scalar matrices with b x b structure, b = 2,3,4 (Kronecker A x C with SPD C, A x I i.e. structurally incomplete blocks, per-edge SPD block stencils, punched Kronecker products, random incomplete blocks; half integer-valued) presented as crs<static_matrix>, block_matrix adapter, builtin_hybrid matrix, crs<Eigen block>; solves: the G5 families on grid / graph base problems (40..900 cells, thorough ..2500) through 8 formulations per block size, every third case also with the matrix rescaled by 2^-30, 2^-60, 2^+30; complex_adapter: random complex matrices (half Gaussian-integer valued); complex_solves: Hermitian positive definite (gauge-phase) and complex-shifted G4 systems, n 60..2000 (thorough ..6000), complex value type and real-equivalent form; mixed: float hierarchy for all 4 coarsenings x 9 relaxations under double FGMRES (every case) and BiCGStab / CG (n <= 640) on G1 model problems with 500..4000 unknowns (thorough ..20000). Non-trivial: the matrix stores entries (operators, complex_adapter), at least one hierarchy of the case has >= 2 levels (solves, mixed), every complex solve case.',
     min_nontrivial=dict(quick=400, thorough=5000),
-    require_obs=dict(quick=['solves', 'real_equivalent_solves', 'mixed_precision_solves', 'representation_spmvs'], thorough=['solves', 'real_equivalent_solves', 'mixed_precision_solves', 'representation_spmvs']),
+    require_obs=dict(quick=['solves', 'rescaled_solves', 'real_equivalent_solves', 'mixed_precision_solves', 'representation_spmvs'], thorough=['solves', 'rescaled_solves', 'real_equivalent_solves', 'mixed_precision_solves', 'representation_spmvs']),
     assumptions=COMMON_ASSUME,
     technique='reference-model oracles on the scalar / complex system held by the harness: exact entry comparison of every block representation, SpMV against the scalar definition, truthful-residual and is-a-solution oracle for every formulation, solution agreement complex vs real-equivalent bounded by the condition number; repeated under ASan/UBSan',
     level_text='Each G5 matrix is solved through the block value type with the block_matrix adapter, make_block_solver, the as_block relaxation, the as_scalar coarsening, the builtin_hybrid backend and Eigen block values for b = 2, 3, 4, and every returned solution is checked against the scalar system (reported residual truthful, tolerance reached); block representations are compared entry-wise and through SpMV with the scalar matrix, unblock(block(A)) with A; complex systems are solved with the complex value type and through the real-equivalent form of the complex adapter and compared; a float hierarchy under a double solver is run on the model problems for all 36 coarsening x relaxation cells. Held means: no observed execution deviated; it is not a proof for unobserved inputs.',
